@@ -391,6 +391,9 @@ def check(prop, tier):
         shutil.rmtree(tmp, ignore_errors=True)
 
 
+COLD_RUNS = 0
+
+
 def check_inner(prop, tier, cfg, seed, total, chunk, workers, tmp, t_start, bt):
     t_run = time.time()
     total_agg = aggregate([])
@@ -398,6 +401,14 @@ def check_inner(prop, tier, cfg, seed, total, chunk, workers, tmp, t_start, bt):
     if tier == "thorough":
         chunk *= 4
     chunks = [(a, min(a + chunk, total)) for a in range(0, total, chunk)]
+    # cold-start runs: one plan per fresh process, so the plan's threads are the first to enter the library and
+    # meet every lazily initialised process-global cold (inside a chunk only its first plan does)
+    cold = int(os.environ.get("VERIF_COLD", cfg.get("cold_" + tier, 0)))
+    if "VERIF_RUNS" in os.environ and "VERIF_COLD" not in os.environ:
+        cold = min(cold, total // 20)
+    chunks += [(a, a + 1) for a in range(total, total + cold)]
+    global COLD_RUNS
+    COLD_RUNS = cold
     deadline = None
     wall_cap = float(os.environ.get("VERIF_WALL_CAP", cfg.get("wall_cap_" + tier, 0)) or 0)
     if wall_cap:
@@ -554,6 +565,7 @@ def write_evidence(prop, tier, cfg, seed, agg, crashes, viols, reported, run_wal
             components=REAL_COMMON + cfg.get("stubs", []),
             violations_reported=reported,
             chunks_skipped_at_wall_cap=skipped,
+            cold_start_runs=COLD_RUNS,
         ),
         assumptions=cfg.get("assumptions", []) + [
             "sampling, not proof: a clean batch is evidence for the explored runs only",
